@@ -428,7 +428,7 @@ def unordered_loops(mod: Mod, known_sets=(), param_sets=None):
                     defs = [st.value for st in ast.walk(f) if isinstance(st, ast.Assign) and len(st.targets) == 1 and isinstance(st.targets[0], ast.Name) and st.targets[0].id == it.id]
                     if not defs and it.id in extra:
                         desc = f"set {it.id} ({param_sets.get(q, {}).get(it.id, 'module-level set')})"
-                    if len(defs) == 1 and (_setlike(defs[0]) or (isinstance(defs[0], ast.BinOp) and isinstance(defs[0].op, (ast.BitAnd, ast.BitOr, ast.BitXor, ast.Sub))
+                    if len(defs) == 1 and (_is_set_expr(defs[0]) or (isinstance(defs[0], ast.BinOp) and isinstance(defs[0].op, (ast.BitAnd, ast.BitOr, ast.BitXor, ast.Sub))
                                                                   and (_setlike(defs[0].left) or _setlike(defs[0].right)))):
                         desc = f"set {it.id} = {src(defs[0])[:40]}"
                 if desc and isinstance(n, ast.For):
